@@ -25,14 +25,17 @@ type c10Playlist struct {
 	firstSeg int // first downloaded segment
 	nSeg     int
 	pdts     []*time.Time
-	lead     int // index of the leading track inside the stream
+	lead     int            // index of the leading track inside the stream
+	reqKey   map[string]int // "URL|Range" of a segment request -> segment index
+	segDone  map[int]int64  // segment -> stamp of its last delivered unit
 }
 
 type c10Result struct {
-	viol []string
-	obs  map[string]int
-	sig  string
-	desc map[string]any
+	c20viol []string // look-ahead / FIFO clauses of C20 evaluated on the same run
+	viol    []string
+	obs     map[string]int
+	sig     string
+	desc    map[string]any
 }
 
 func runC10Case(seed int64, idx int) *c10Result {
@@ -141,7 +144,7 @@ func runC10Case(seed int64, idx int) *c10Result {
 		}
 		plURL := baseURL + name
 		pl := &origin.Playlist{URL: plURL, TargetDuration: 1, OmitRangeStart: rangeMode == "nostart"}
-		p := &c10Playlist{url: plURL, stream: st, nSeg: nSeg}
+		p := &c10Playlist{url: plURL, stream: st, nSeg: nSeg, reqKey: map[string]int{}, segDone: map[int]int64{}}
 		for i, t := range tracks {
 			if t.Kind.IsVideo() {
 				p.lead = i
@@ -178,10 +181,12 @@ func runC10Case(seed int64, idx int) *c10Result {
 			if rangeMode == "none" {
 				sg.URI = fmt.Sprintf("%s_seg_%d.bin", tag, i)
 				site.Files[origin.Resolve(plURL, sg.URI)] = st.Segs[i]
+				p.reqKey[origin.ResolveFull(plURL, sg.URI)+"|"] = i
 			} else {
 				sg.URI = tag + "_all.mp4"
 				sg.RangeLen = u64p(uint64(len(st.Segs[i])))
 				sg.RangeStart = u64p(off)
+				p.reqKey[fmt.Sprintf("%s|bytes=%d-%d", origin.ResolveFull(plURL, sg.URI), off, off+uint64(len(st.Segs[i]))-1)] = i
 				single = append(single, st.Segs[i]...)
 				off += uint64(len(st.Segs[i]))
 			}
@@ -377,6 +382,9 @@ func runC10Case(seed int64, idx int) *c10Result {
 			}
 			gi++
 			res.obs["units_checked"]++
+			if u.Stamp > et.pl.segDone[w.sm.Seg] {
+				et.pl.segDone[w.sm.Seg] = u.Stamp
+			}
 			if d := u.PTS - w.pts; d < -1 || d > 1 {
 				fail("pts/"+container, "track %d (%s): unit %d delivered with pts %d, expected %d (container pts %d, origin %d in this rate)", ci, t.Kind, w.sm.Idx, u.PTS, w.pts, w.sm.PTS, off)
 				break
@@ -427,6 +435,44 @@ func runC10Case(seed int64, idx int) *c10Result {
 			u := units[got[gi]]
 			_, tagIdx, _ := media.ParseTag(media.Norm(t.Kind, u.Data))
 			fail("extra/"+t.Kind.String(), "track %d (%s): %d units delivered beyond the expected ones (first has tag %d, pts %d)", ci, t.Kind, len(got)-gi, tagIdx, u.PTS)
+		}
+	}
+	// C20 (end-to-end half): the origin serves everything at once, i.e. much faster than real
+	// time; at every segment request the number of segments requested so far minus the number
+	// of segments completely delivered must stay <= 3, and segments are delivered in request order
+	if len(res.viol) == 0 {
+		log := srv.Log()
+		for pi, p := range pls {
+			var reqSegs []int
+			for _, e := range log {
+				seg, ok := p.reqKey[e.URL+"|"+e.Range]
+				if !ok {
+					continue
+				}
+				reqSegs = append(reqSegs, seg)
+				done := 0
+				for _, rs := range reqSegs[:len(reqSegs)-1] {
+					if st, ok := p.segDone[rs]; !ok || st < e.Call {
+						done++
+					}
+				}
+				ahead := len(reqSegs) - done
+				if ahead > res.obs["max_lookahead"] {
+					res.obs["max_lookahead"] = ahead
+				}
+				res.obs["lookahead_checks"]++
+				if ahead > 3 {
+					res.c20viol = append(res.c20viol, fmt.Sprintf("C20/lookahead|playlist %d: at the request of segment %d, %d segments had been requested and only %d completely delivered (look-ahead %d > 3)", pi, seg, len(reqSegs), done, ahead))
+					break
+				}
+			}
+			for i := 1; i < len(reqSegs); i++ {
+				a, b := p.segDone[reqSegs[i-1]], p.segDone[reqSegs[i]]
+				if a != 0 && b != 0 && b < a {
+					res.c20viol = append(res.c20viol, fmt.Sprintf("C20/delivery-order|playlist %d: segment %d was requested before segment %d but delivered after it", pi, reqSegs[i-1], reqSegs[i]))
+					break
+				}
+			}
 		}
 	}
 	var ks []string
